@@ -7,10 +7,16 @@ for d in sorted(glob.glob("/verif/seeded/*")):
     sid = os.path.basename(d)
     what = re.sub(r"\s+", " ", str(m.get("what", "")))[:170]
     r = str(m.get("check_result", ""))
-    first = "missed at first, caught now" if ("missed" in r.lower() or "first run" in r.lower()) else "caught"
+    rl = r.lower()
+    first = ("NOT caught (outside the quantifier, by decision)" if rl.startswith("not caught") else
+             "missed at first, caught now" if ("missed" in rl or "first run" in rl) else
+             "alarm without a failing input (no-failing-input-found)" if ("no-failing-input-found" in rl and "caught with a concrete" not in rl and "caught after" not in rl) else
+             "alarm only at first, concrete input now" if "alarm only at first" in rl or "crashed at first" in rl else "caught")
     rows.append((sid, what, first))
 print("| seed | change (abridged) | quick check |")
 print("|---|---|---|")
 for sid, what, first in rows:
     print(f"| {sid} | {what} | {first} |")
-print(f"\n{len(rows)} seeded changes; {sum(1 for r in rows if r[2] != 'caught')} were missed by the first version of the check that met them and are caught now.")
+import collections
+c = collections.Counter(r[2] for r in rows)
+print(f"\n{len(rows)} seeded changes: " + "; ".join(f"{v} {k}" for k, v in sorted(c.items())))
